@@ -164,13 +164,19 @@ Proof.
   induction fs as [|s fs IH]; intros H; [reflexivity|]. cbn in H. apply orb_false_iff in H. destruct H as [H1 H2].
   cbn [forallb]. now rewrite (item_scalar_resolves D _ H1), IH.
 Qed.
+Lemma inline_type_resolves : forall D c n k, ref_resolves D (inline_type c n k) = true.
+Proof. intros D c n k. unfold inline_type. destruct (c =? 2); reflexivity. Qed.
 Lemma resolves_ufield_scalar : forall D u, is_ref_field u = false -> resolves D (of_ufield u) = true.
 Proof.
-  intros D [n [pt k|nm|nm|nm|p f t|tn k|i|i|fs|fs|os] r o] H; try reflexivity; try discriminate.
+  intros D [n [pt k|nm|nm|nm|p f t|tn k|i|i|fs|fs|os] r o d kf c] H; try reflexivity; try discriminate.
   - unfold resolves, field_resolves. cbn. rewrite andb_true_r. now apply item_scalar_resolves.
   - unfold resolves, field_resolves. cbn. rewrite andb_true_r. now apply item_scalar_resolves.
-  - unfold resolves, field_resolves. cbn. now apply sfields_scalar_resolve.
-  - unfold resolves, field_resolves. cbn. now apply sfields_scalar_resolve.
+  - unfold resolves, field_resolves. cbn [of_ufield uf_kind uf_name uf_container f_type f_inline il_fields].
+    rewrite inline_type_resolves. now apply sfields_scalar_resolve.
+  - unfold resolves, field_resolves. cbn [of_ufield uf_kind uf_name uf_container f_type f_inline il_fields].
+    rewrite inline_type_resolves. now apply sfields_scalar_resolve.
+  - unfold resolves, field_resolves. cbn [of_ufield uf_kind uf_name uf_container f_type f_inline il_fields].
+    rewrite inline_type_resolves. reflexivity.
 Qed.
 
 (* what the user's own object references must name for the file to convert *)
